@@ -193,7 +193,7 @@ Theorem preset_ok_builds : forall (T : Type) (o : NumOps T) dtab ntab (ang : met
   cfg (tabs : ptables) m preset atnum row rg c rotate,
   tables_okb dtab ntab m = true -> rg_wf rg -> rg_okb o rg = true -> rot_okb rg rotate = true ->
   find_row tabs preset atnum = Some row ->
-  preset_okb o ntab cfg tabs m preset atnum row = true ->
+  preset_okb o dtab ntab cfg tabs m preset atnum row = true ->
   (count_branch cfg preset atnum = true ->
    get_rgrid_size cfg tabs preset atnum = Some (Z.of_nat (length (rg_pts rg)))) ->
   exists g, from_preset o dtab ntab ang rot cfg tabs m atnum preset rg c rotate = Some g /\
